@@ -162,6 +162,9 @@ impl Report {
     pub fn note(&mut self, msg: &str) {
         writeln!(self.w, "#NOTE {}", msg.replace('\n', " ")).unwrap();
     }
+    pub fn flush(&mut self) {
+        let _ = self.w.flush();
+    }
     pub fn finish(mut self) {
         self.w.flush().unwrap();
     }
